@@ -8,11 +8,15 @@ GEN_FUNCTIONS = ['checkLimits', 'checkLimitsTol', 'point_in_bounds', 'constrainL
 RULE = ('boundary-biased (value at/around lower, upper, upper+tol, lower-tol, +-1 ulp, degenerate ranges) and random '
         'int/float mixtures; a case is non-trivial when the value is not strictly inside the range; distinct by input tuple; '
         'plus the "sitecov" stream: every comparison of the CURRENT source of the four helpers driven to lhs == rhs, +-1 ulp '
-        'and both outcomes (harness/sitecov.py)')
+        'and both outcomes (harness/sitecov.py); plus the extreme-magnitude stream gen_far: values extremely far outside the range '
+        'relative to its width on both sides (floats up to the largest finite double, ints up to 10**400), narrow ranges at large '
+        'offsets, ranges whose width/sum/midpoint overflows, subnormal-scale ranges, ints beyond 2**53 one unit off a bound')
 TRUSTED = ['translator/pynum2lean.py (validated by this correspondence run)',
            'Rounding.ieee as model of binary64 addition (validated by this run)',
            'modelled not verified: Python int/float comparison = exact rational comparison']
-ASSUMPTIONS = ['arguments are finite ints/floats with lower <= upper and tolerance >= 0']
+ASSUMPTIONS = ['arguments are finite ints/floats with lower <= upper and tolerance >= 0',
+               'extreme-magnitude stream: the band lower - tol .. upper + tol is computable (no int beyond the float range combined '
+               'with a float tolerance), finite, and contains the range (hypothesis of C18_point_in_bounds)']
 
 
 def ulp_neighbours(x):
@@ -39,6 +43,183 @@ def gen_case(rng):
         cands += [b + sgn * 2.0 ** -rng.randint(25, 50), b + sgn * abs(b) * 2.0 ** -rng.randint(40, 52)]
     v = rng.choice(cands)
     return v, lo, hi, tol
+
+
+FMAX = 1.7976931348623157e308
+
+
+def band_computable(lo, hi, tol):
+    """the band lower - tol .. upper + tol can be formed in Python arithmetic and is finite (it need NOT contain the range:
+    an int bound beyond 2**53 plus a float tolerance rounds INTO the range - still a valid request, see F14)"""
+    try:
+        a, b = lo - tol, hi + tol
+    except OverflowError:
+        return False
+    return finite(a, b)
+
+
+def flag_spec(v, lo, hi, t):
+    """the tolerant checker's flag by the statement: outside the closed range AND beyond the tolerance band"""
+    if Fraction(v) > Fraction(hi):
+        return v > hi + t
+    if Fraction(v) < Fraction(lo):
+        return v < lo - t
+    return False
+
+
+# F14 witnesses (fixed: see known_findings.txt): an int coordinate ON an int bound above 2**53 with a float tolerance
+WITNESS_PTS = [(2 ** 53 + 1, 0, 0, 0, 2 ** 53 + 1, 1, 1e-9), (2 ** 61 + 1, 0, 0, 0, 2 ** 61 + 2, 1, 1e-9),
+               (-(2 ** 53 + 1), 0, -(2 ** 53 + 1), 0, 5, 1, 1e-9), (0, 2 ** 70 + 1, 0, 3, 1, 2 ** 70 + 1, 0.5),
+               (3, -(2 ** 64 + 1), 0, -(2 ** 64 + 3), 5, 0, 1e-9)]
+
+
+def band_ok(lo, hi, tol):
+    """the tolerance band lower - tol .. upper + tol is computable in Python arithmetic, finite and contains the range (an
+    int beyond the float range plus a float tolerance raises OverflowError in ANY implementation that forms the band; a
+    band that overflows to +-inf is kept out as well: see the scope note in run())"""
+    try:
+        a, b = lo - tol, hi + tol
+    except OverflowError:
+        return False
+    # ... and the computed band contains the range (the hypothesis of Props/C18.lean:C18_point_in_bounds; it can only fail
+    # for an int bound beyond 2**53 that float(bound) rounds INTO the range when the tolerance is a float)
+    return finite(a, b) and a <= lo and hi <= b
+
+
+def _steps(x, n):
+    """x moved by n ulps (n may be negative)"""
+    x = float(x)
+    for _ in range(abs(n)):
+        x = math.nextafter(x, math.inf if n > 0 else -math.inf)
+    return x
+
+
+def _far_magnitude(rng, scale):
+    """a magnitude extremely far from a range of the given scale (its width / its offset): floats up to the largest finite
+    double, ints up to 10**400 (beyond the float range); relative (scale * 2**k: the two distances value-lower and
+    value-upper round to the same double from k ~ 53 on) and absolute"""
+    k = rng.random()
+    if k < 0.30:
+        m = float(scale or 1.0) * 2.0 ** rng.randint(40, 70)              # around the 2**53 rounding threshold
+        return m if math.isfinite(m) else FMAX
+    if k < 0.50:
+        return 10.0 ** rng.randint(15, 308) * rng.choice([1.0, 1.0, rng.uniform(1, 1.79)])
+    if k < 0.60:
+        return rng.choice([FMAX, _steps(FMAX, -rng.randint(1, 3)), FMAX / 2, 2.0 ** 1023, 1e308, 1e300])
+    if k < 0.85:
+        return 10 ** rng.randint(15, 400) + rng.choice([0, 0, 1, -1, rng.randint(-10 ** 6, 10 ** 6)])
+    return 2 ** rng.randint(53, 1300) + rng.choice([0, 1, -1])
+
+
+def _ordinary_range(rng):
+    k = rng.random()
+    if k < 0.2:
+        return rng.choice([(0.0, 10.0), (-23.5, 47.25), (5.0, 5.0), (0, 300), (-0.5, 0.25), (0, 0), (0.0, 0.0), (-1, 1),
+                           (0.0, 1.0), (-11.81, 0.0), (0, 8.5), (0.0, 430), (-300, -299.75), (1e-9, 2e-9)])
+    if k < 0.45:
+        lo = rng.randint(-1000, 1000); return lo, lo + rng.choice([0, 1, 2, 7, 100, 10 ** 6])
+    lo = rng.uniform(-1000, 1000) * 10 ** rng.randint(-6, 3)
+    hi = lo + rng.choice([0.0, 1e-9, 0.1, 1.0, 12.5, 300.0, abs(rng.uniform(0, 1e4))])
+    if rng.random() < 0.25:
+        hi = int(math.ceil(hi))
+    if rng.random() < 0.15:
+        lo = int(math.floor(lo))
+    return lo, hi
+
+
+def gen_far(rng):
+    """values EXTREMELY far outside the range relative to its width (both sides, int and float, up to the largest finite
+    double and ints up to 10**400), narrow ranges at large offsets, ranges whose width / sum / midpoint overflows, ranges on
+    the subnormal scale, ints beyond 2**53 one unit off a bound: the classes where a limiter written with differences,
+    distances, midpoints, products or float() conversions (instead of comparisons) goes wrong through rounding, overflow or
+    underflow although it is right for every everyday overshoot."""
+    kind = rng.random()
+    sgn = rng.choice([-1, 1])
+    if kind < 0.45:                                   # A: ordinary range, value extremely far away
+        lo, hi = _ordinary_range(rng)
+        width = float(Fraction(hi) - Fraction(lo))
+        scale = rng.choice([width, width, max(abs(float(lo)), abs(float(hi))), 1.0])
+        v = sgn * _far_magnitude(rng, scale)
+    elif kind < 0.65:                                 # B: narrow range at a large offset
+        off = rng.choice([10.0 ** rng.randint(6, 300), 2.0 ** rng.randint(20, 1000), rng.uniform(1e6, 1e15),
+                          float(10 ** rng.randint(6, 22))]) * rng.choice([-1, 1])
+        a = off; b = rng.choice([_steps(off, rng.randint(0, 4)), off + rng.choice([0.25, 1.0, 300.0, 1e-9])])
+        lo, hi = min(a, b), max(a, b)
+        if rng.random() < 0.25 and abs(lo) < 1e22:
+            lo = int(math.floor(lo))
+            if Fraction(lo) > Fraction(hi):
+                hi = lo
+        elif rng.random() < 0.2 and abs(hi) < 1e22:
+            hi = int(math.ceil(hi))
+        k = rng.random()
+        if k < 0.35:
+            v = _steps(rng.choice([lo, hi]), rng.choice([-3, -2, -1, 1, 2, 3]))
+        elif k < 0.5:
+            v = rng.choice([lo, hi, float(lo) / 2, 0, 0.0, -float(hi), -float(lo)])
+        else:
+            width = float(Fraction(hi) - Fraction(lo))
+            v = sgn * _far_magnitude(rng, rng.choice([width, abs(float(lo))]))
+    elif kind < 0.80:                                 # C: huge bounds (width, sum or midpoint overflows in float arithmetic)
+        k = rng.random()
+        big = lambda: rng.choice([FMAX, _steps(FMAX, -rng.randint(1, 4)), 1e308, 1.5e308, 2.0 ** 1023, FMAX / 2,     # noqa: E731
+                                  rng.uniform(0.4, 1.79) * 1e308])
+        if k < 0.35:                                  # opposite signs: upper - lower overflows
+            lo, hi = -big(), big()
+        elif k < 0.7:                                 # same sign: lower + upper overflows
+            a, b = big(), big()
+            lo, hi = (min(a, b), max(a, b)) if rng.random() < 0.5 else (-max(a, b), -min(a, b))
+        elif k < 0.85:                                # one huge bound, one ordinary
+            lo, hi = rng.choice([(-big(), rng.uniform(-10, 10)), (rng.uniform(-10, 10), big()), (0, big()), (-big(), 0)])
+        else:                                         # int bounds beyond the float range
+            a = sgn * 10 ** rng.randint(300, 400); b = a + rng.choice([0, 1, 10 ** 6, 10 ** rng.randint(10, 400)])
+            lo, hi = a, b
+        k = rng.random()
+        if k < 0.3:
+            v = _steps(rng.choice([lo, hi]), rng.choice([-2, -1, 1, 2])) if finite(float_or_none(lo), float_or_none(hi)) \
+                else rng.choice([lo, hi]) + rng.choice([-1, 1])
+        elif k < 0.45:
+            v = rng.choice([lo, hi, 0, 0.0, rng.uniform(-1, 1)])
+        elif k < 0.7:
+            v = sgn * rng.choice([FMAX, _steps(FMAX, -1), 1e308, 1.7e308])
+        else:
+            v = sgn * (10 ** rng.randint(300, 400) + rng.choice([0, 1, -1]))
+        if type(v) is float and not math.isfinite(v):
+            v = sgn * FMAX
+    elif kind < 0.92:                                 # D: everything on a tiny / subnormal scale (products underflow)
+        u = rng.choice([5e-324, 2.0 ** -rng.randint(500, 1074), 10.0 ** -rng.randint(150, 320)]) or 5e-324
+        a = rng.randint(-8, 8) * u; b = a + rng.choice([0, 1, 2, 5, 1000]) * u
+        lo, hi = a, b
+        v = rng.choice([a - rng.randint(1, 3) * u, b + rng.randint(1, 3) * u, a, b, (a + b) / 2, 0.0, 0,
+                        sgn * u * 2.0 ** rng.randint(1, 60), sgn * 1.0, sgn * _far_magnitude(rng, 1.0)])
+    else:                                             # E: ints beyond 2**53 one unit off a bound (float(value) loses it)
+        p = 2 ** rng.randint(53, 90) * rng.choice([-1, 1])
+        w = rng.choice([0, 1, 2, 2 ** rng.randint(1, 52)])
+        lo, hi = p, p + w
+        if rng.random() < 0.5:
+            lo = float(lo)
+        if rng.random() < 0.5:
+            hi = float(hi)
+        if Fraction(lo) > Fraction(hi):
+            hi = lo
+        v = rng.choice([int(Fraction(lo)) - 1, int(Fraction(hi)) + 1, int(Fraction(lo)) + 1, int(Fraction(hi)) - 1,
+                        int(Fraction(lo)), int(Fraction(hi)), _steps(lo, -1), _steps(hi, 1)])
+    # tolerance: the everyday ones, tiny, huge, and comparable with the overshoot (far outside yet within tolerance)
+    av = abs(Fraction(v))
+    tol = rng.choice([0, 0, 0.0, 1e-9, 1e-9, 0.5, 1, 0.015625, 2.0 ** -30, rng.uniform(0, 2), 5e-324, 1e300, 10 ** 18,
+                      float_or_none(av / 2) or 0, float_or_none(av * 2) or 0, int(av) + rng.choice([0, 1]), int(av) // 2])
+    if not band_ok(lo, hi, tol):
+        tol = rng.choice([0, 1, int(tol) if type(tol) is int or math.isfinite(tol) else 0])
+        if not band_ok(lo, hi, tol):
+            tol = 0
+    return v, lo, hi, tol
+
+
+def float_or_none(x):
+    try:
+        f = float(x)
+    except OverflowError:
+        return None
+    return f if math.isfinite(f) else None
 
 
 SITECOV_ONLY = bool(os.environ.get('SITECOV_ONLY'))   # experiment: unbiased random cases + the sitecov stream only
@@ -102,9 +283,11 @@ def run_sequences(ctx, pu, pts):
         else:              # everything mutated in place
             bounds[0][0], bounds[0][1], bounds[1][0], bounds[1][1] = x0, y0, x1, y1
             point[0], point[1] = x, y
-        last_t = t
         (bx0, by0), (bx1, by1) = bounds
         px, py = point
+        if not (band_computable(bx0, bx1, t) and band_computable(by0, by1, t)):   # band not computable / not finite with this tolerance
+            t = 0
+        last_t = t
         inp = {'fn': 'point_in_bounds(sequence, same objects mutated in place)', 'step': i,
                'args': [pyval(z) for z in (px, py, bx0, by0, bx1, by1, t)]}
         try:
@@ -116,7 +299,7 @@ def run_sequences(ctx, pu, pts):
         except Exception as ex:
             ctx.count(('seq', i)); ctx.violate(f'sequence call raised {type(ex).__name__}', inp, repr(ex), 'a value'); continue
         ctx.count(('seq', i, tuple(inp['args'])), 'sequence', True)
-        wantb = (not ((px > bx1 + t) or (px < bx0 - t))) and (not ((py > by1 + t) or (py < by0 - t)))
+        wantb = (not flag_spec(px, bx0, bx1, t)) and (not flag_spec(py, by0, by1, t))
         if r != wantb:
             ctx.violate('point_in_bounds: not "within tolerance of the bounds" (call sequence)', inp, str(r), str(wantb))
         if r != ((not fx) and (not fy)):
@@ -144,7 +327,20 @@ def run(ctx):
                         cases.append((v, lo, hi, tol))
         for _ in range(ctx.n(4000)):
             cases.append(gen_case(rng))
+        # extreme magnitudes (far values, narrow ranges at large offsets, overflowing / subnormal ranges, ints > 2**53)
+        for _ in range(ctx.n(1500)):
+            cases.append(gen_far(rng))
+        ctx.notes.append('scope: in the extreme-magnitude stream the tolerance is replaced (by an int / by 0) whenever the band '
+                         'lower - tol / upper + tol is not computable (int beyond the float range with a float tolerance: '
+                         'OverflowError in the unchanged code as well), overflows to +-inf, or does not contain the range (int '
+                         'bound beyond 2**53 rounded into the range by the float addition: hypothesis of C18_point_in_bounds); ints beyond the float range occur '
+                         'as value with any bounds, as bounds only with an int tolerance')
     pts = pipeline(ctx, pu, cases, None, sequences=True)
+    pipeline(ctx, pu, [], list(WITNESS_PTS))      # corpus: bound above 2**53 on which the float band rounds into the range
+    # the sitecov search converts ints to float: keep ints beyond the float range out of its seeds
+    small = lambda c: all(type(z) is not int or abs(z) < 2 ** 1000 for z in c)          # noqa: E731
+    cases = [c for c in cases if small(c)]
+    pts = [q for q in pts if small(q)]
 
     # ---- sitecov stream: boundary inputs for every comparison of the CURRENT source, through the same pipeline ----
     if not SITECOV_OFF:
@@ -178,14 +374,14 @@ def pipeline(ctx, pu, cases, pts, sequences=False):
         # 2-D cases: pair consecutive 1-D cases sharing the tolerance
         pts = []
         for i in range(0, len(cases) - 1, 2):
-            (x, x0, x1, t), (y, y0, y1, _) = cases[i], cases[i + 1]
+            (x, x0, x1, t), (y, y0, y1, t2) = cases[i], cases[i + 1]
+            if not band_computable(y0, y1, t):    # the shared tolerance must give a computable, finite band on both axes
+                t = t2 if band_computable(x0, x1, t2) else 0
             pts.append((x, y, x0, y0, x1, y1, t))
     for pt in pts:
         lines.append('gen point_in_bounds 15 ' + ' '.join(pyval(z) for z in pt))
         meta.append(('point_in_bounds', tuple(pt)))
     outs = ctx.driver.batch(lines) if ctx.driver else [None] * len(lines)
-    if sequences:
-        run_sequences(ctx, pu, pts)
     for (fn, args), out in zip(meta, outs):
         try:
             if fn == 'checkLimits':
@@ -214,7 +410,16 @@ def pipeline(ctx, pu, cases, pts, sequences=False):
             ctx.count((fn, args), fn, True)
         ctx.sample({'fn': fn, 'args': [pyval(a) for a in args], 'impl': impl})
         if out is not None and out != impl:
-            ctx.disagree(fn, {'fn': fn, 'args': [pyval(a) for a in args]}, impl, out)
+            big_mixed = any(type(a) is int and abs(a) > 2 ** 53 for a in args) and any(type(a) is float for a in args)
+            if big_mixed:
+                # CPython converts an int operand to float BEFORE a mixed operation (two roundings); the Py.Val library
+                # rounds the exact result once.  The two agree for |int| <= 2**53; beyond, the difference is the model's,
+                # logged and never judged (the oracle below is independent of the model)
+                if len(ctx.out_of_domain) < 50:
+                    ctx.out_of_domain.append({'what': 'Gen vs CPython on mixed int/float arithmetic with |int| > 2**53 (double rounding)',
+                                              'input': {'fn': fn, 'args': [pyval(a) for a in args]}, 'impl': impl, 'model': out})
+            else:
+                ctx.disagree(fn, {'fn': fn, 'args': [pyval(a) for a in args]}, impl, out)
         # ---- property oracle (independent of the model) ----
         inp = {'fn': fn, 'args': [pyval(a) for a in args]}
         if fn in ('checkLimits', 'checkLimitsTol'):
@@ -226,7 +431,7 @@ def pipeline(ctx, pu, cases, pts, sequences=False):
                 ctx.violate('checkLimits: flag is not "outside the range"', inp, impl, str(not inside(v, lo, hi)))
             if fn == 'checkLimitsTol':
                 # band as the code computes it (float addition when floats are involved)
-                wantf = (v > hi + tol) or (v < lo - tol)
+                wantf = flag_spec(v, lo, hi, tol)
                 if flag != wantf:
                     ctx.violate('checkLimitsTol: flag is not "outside by more than the tolerance"', inp, impl, str(wantf))
         elif fn == 'constrainLimits':
@@ -234,11 +439,18 @@ def pipeline(ctx, pu, cases, pts, sequences=False):
             if Fraction(r) != Fraction(want):
                 ctx.violate('constrainLimits: wrong value', inp, impl, pyval(want))
         else:
-            fx = pu.checkLimitsTol(x, x0, x1, t)[1]
-            fy = pu.checkLimitsTol(y, y0, y1, t)[1]
-            wantb = (not ((x > x1 + t) or (x < x0 - t))) and (not ((y > y1 + t) or (y < y0 - t)))
-            if r != ((not fx) and (not fy)):
+            wantb = (not flag_spec(x, x0, x1, t)) and (not flag_spec(y, y0, y1, t))
+            try:
+                fx = pu.checkLimitsTol(x, x0, x1, t)[1]
+                fy = pu.checkLimitsTol(y, y0, y1, t)[1]
+            except Exception as ex:  # judged where the 1-D case is judged; here only the band reading remains
+                ctx.violate(f'checkLimitsTol raised {type(ex).__name__} (per-coordinate reference of point_in_bounds)', inp,
+                            repr(ex), 'a value')
+                fx = fy = None
+            if fx is not None and r != ((not fx) and (not fy)):
                 ctx.violate('point_in_bounds disagrees with checkLimitsTol per coordinate', inp, impl, str((not fx) and (not fy)))
             if r != wantb:
                 ctx.violate('point_in_bounds: not "within tolerance of the bounds"', inp, impl, str(wantb))
+    if sequences:     # after the single calls, so that the replay leads with the plain single-call failing inputs
+        run_sequences(ctx, pu, pts)
     return pts
